@@ -23,7 +23,9 @@ EXPLANATION = (
     "method; C22.3 db_retry rolls the session back before retrying and re-raises when attempts are exhausted; C22.4 every public method of "
     "RedunBackendDb that commits is decorated with @db_retry; C22.5 in every @db_retry method each direct session write (add/add_all/merge/delete, Query.update/delete, "
     "execute(update/insert/delete)) reaches a commit point on every path to the method's end (accepted idiom: `add_all(A); if A or ...: commit()` -- nothing was "
-    "added on the false edge), because rows left pending are discarded by the rollback of a later, unrelated retried call."
+    "added on the false edge), because rows left pending are discarded by the rollback of a later, unrelated retried call; "
+    "C22.6 no @db_retry method is entered (directly or through a helper) while its caller has uncommitted session writes, unless db_retry.wrapper lets nested calls pass through "
+    "to the outermost retry (re-entrancy guard: marker tested first, set before the loop, cleared in finally)."
 )
 
 DB = "redun/backends/db/__init__.py"
@@ -181,13 +183,13 @@ def run(ctx):
                 if not isinstance(c, ast.Call):
                     continue
                 la, d = last_attr(c), call_name(c) or ""
-                if la in ("add", "add_all", "merge", "delete") and d.startswith("self.session."):
+                if la in ("add", "add_all", "merge", "delete") and (d.startswith("self.session.") or d.startswith("session.")):
                     ws.append(src(c)[:60])
                 elif la == "update" and c.args and isinstance(c.args[0], ast.Dict) and c.args[0].keys and all(isinstance(k, ast.Attribute) for k in c.args[0].keys):
                     ws.append(src(c)[:60])  # Query.update({Model.col: value})
                 elif la == "delete" and not c.args and "query" in src(c.func.value).lower():
                     ws.append(src(c)[:60])  # Query.delete()
-                elif la == "execute" and d.startswith("self.session.") and c.args and any(isinstance(x, ast.Call) and last_attr(x) in ("update", "insert", "delete") for x in ast.walk(c.args[0])):
+                elif la == "execute" and (d.startswith("self.session.") or d.startswith("session.")) and c.args and any(isinstance(x, ast.Call) and last_attr(x) in ("update", "insert", "delete") for x in ast.walk(c.args[0])):
                     ws.append(src(c)[:60])
             # idiom: `session.add_all(A); session.add_all(B); if A or B: session.commit()` -- on the false edge nothing was added
             added = {src(c.args[0]) for x in cfg.nodes if x.kind == "stmt" and x.ast is not None for c in _walk_own(x) if isinstance(c, ast.Call) and last_attr(c) == "add_all" and c.args and isinstance(c.args[0], ast.Name)}
@@ -222,12 +224,84 @@ def run(ctx):
         if not nw:
             r5.good(f"{db.rel}:RedunBackendDb.{name}:no-direct-write")
 
+    # ---- C22.6 no retried call while the caller has uncommitted rows ----
+    r6 = ctx.rule("C22.6", "no @db_retry method is entered while the calling method has rows pending in the session", floor=10)
+    reaches_retry = transitive(cls, lambda fn: False)
+    direct_callees = {n: {c for c, _ in self_calls(f)} for n, f in methods.items()}
+    reaches_retry = {n: False for n in methods}
+    changed = True
+    while changed:
+        changed = False
+        for n in methods:
+            if not reaches_retry[n] and any((c in retried) or reaches_retry.get(c, False) for c in direct_callees[n]):
+                reaches_retry[n] = True
+                changed = True
+    # accepted idiom: the wrapper lets a nested call pass straight through (`if <marker>: return func(self, *args, **kwargs)`) so that only the
+    # outermost retried call rolls back and retries; the marker is set before the retry loop and cleared in a finally
+    wfn = db.funcs["db_retry.wrapper"]
+    guard = None
+    for n in wfn.body:
+        if isinstance(n, ast.If) and len(n.body) == 1 and isinstance(n.body[0], ast.Return) and isinstance(n.body[0].value, ast.Call) and call_name(n.body[0].value) == "func":
+            guard = n
+    reentrant = False
+    if guard is not None:
+        later = [x for x in wfn.body if x.lineno > guard.lineno]
+        sets_marker = any(isinstance(x, (ast.Expr, ast.Assign, ast.AugAssign)) for x in later)
+        cleared = any(isinstance(x, ast.Try) and x.finalbody for x in later)
+        no_handler_before = not any(isinstance(x, ast.Try) and x.handlers for x in wfn.body if x.lineno < guard.lineno)
+        reentrant = sets_marker and cleared and no_handler_before
+    ctx.extra["db_retry_reentrant_guard"] = reentrant
+    for name, fn in sorted(retried.items()):
+        cfg = CFG(fn)
+        commit_only = [n for n in cfg.nodes if n.kind in ("stmt", "test") and n.ast is not None and not isinstance(n.ast, (FuncNode, ast.ClassDef, ast.Try)) and any(isinstance(c, ast.Call) and is_commit_call(c) for c in _walk_own(n))]
+        writes = []
+        for n in cfg.nodes:
+            if n.kind not in ("stmt", "test") or n.ast is None or isinstance(n.ast, (FuncNode, ast.ClassDef, ast.Try)):
+                continue
+            for c in _walk_own(n):
+                if isinstance(c, ast.Call) and last_attr(c) in ("add", "add_all", "merge", "delete") and (call_name(c) or "").startswith(("self.session.", "session.")):
+                    writes.append((n, src(c)[:50]))
+        found_any = False
+        for n in cfg.nodes:
+            if n.kind not in ("stmt", "test") or n.ast is None or isinstance(n.ast, (FuncNode, ast.ClassDef, ast.Try)):
+                continue
+            for c in _walk_own(n):
+                if not isinstance(c, ast.Call):
+                    continue
+                d = call_name(c) or ""
+                if not (d.startswith("self.") and d.count(".") == 1):
+                    continue
+                callee = d[5:]
+                if callee == name and False:
+                    continue
+                if callee in retried or reaches_retry.get(callee):
+                    pend = [w for wn, w in writes if wn is not n and cfg.can_reach(wn, n, avoiding=commit_only)]
+                    found_any = True
+                    if reentrant:
+                        r6.good(f"{db.rel}:RedunBackendDb.{name}:nested({callee})", "nested call passes through to the outermost retry (re-entrancy guard in db_retry.wrapper)")
+                        continue
+                    r6.check(
+                        not pend,
+                        f"{db.rel}:RedunBackendDb.{name}:nested({callee})",
+                        f"{name} calls self.{callee}() -- {'a @db_retry method' if callee in retried else 'which reaches a @db_retry method'} -- while `{pend[0] if pend else ''}` is still uncommitted: if the inner "
+                        "call hits a transient OperationalError, the inner wrapper rolls the shared session back (discarding the outer method's pending rows) and retries only the inner call; the outer "
+                        "method then continues as if its rows were still there (foreign-key IntegrityError, or a record written without its parent)",
+                        db.rel,
+                        n.lineno,
+                    )
+        if not found_any:
+            r6.good(f"{db.rel}:RedunBackendDb.{name}:no-nested-retry")
+
     # ---- C22.3 the wrapper ----
     r3 = ctx.rule("C22.3", "db_retry: rollback before retry, bare raise when exhausted, loop re-invokes", floor=3)
-    wr = db.funcs.get("db_retry.wrapper")
-    if wr is None:
+    outer = db.funcs.get("db_retry")
+    if outer is None or db.funcs.get("db_retry.wrapper") is None:
         raise AnalysisError("db_retry.wrapper not found", "db_retry")
-    handler = next((h for n in ast.walk(wr) if isinstance(n, ast.Try) for h in n.handlers if "OperationalError" in src(h.type)), None)
+    # the function nested in db_retry that holds the retry loop (the wrapper itself, or a helper it delegates to)
+    wr = next((f for q, f in db.funcs.items() if q.startswith("db_retry.") and any(isinstance(n, ast.Try) and any(h.type is not None and "OperationalError" in src(h.type) for h in n.handlers) for n in ast.walk(f))), None)
+    if wr is None:
+        raise AnalysisError("db_retry: except OperationalError not found", "db_retry")
+    handler = next((h for n in ast.walk(wr) if isinstance(n, ast.Try) for h in n.handlers if h.type is not None and "OperationalError" in src(h.type)), None)
     if handler is None:
         raise AnalysisError("db_retry: except OperationalError not found", "db_retry")
     first_call = next((c for st in handler.body for c in ast.walk(st) if isinstance(c, ast.Call)), None)
